@@ -365,21 +365,60 @@ _LOWER = z3.Function('py_lower', z3.StringSort(), z3.StringSort())
 _UPPER = z3.Function('py_upper', z3.StringSort(), z3.StringSort())
 
 
+def _case_map_term(v, maxlen, alphabet, fn):
+    """exact str.lower()/upper() of a variable over a finite alphabet with bounded length:
+    context-free, character by character (alphabets with context-sensitive case mappings, i.e.
+    Greek capital sigma, are rejected)"""
+    if any(c in alphabet for c in '\u03a3'):
+        raise HarnessError('alphabet contains a character with a context-sensitive case mapping')
+    pieces = []
+    for i in range(maxlen):
+        ci = z3.SubString(v, z3.IntVal(i), z3.IntVal(1))
+        t = ci
+        for ch in alphabet:
+            m = fn(ch)
+            if m != ch:
+                t = z3.If(ci == core.zstrval(ch), core.zstrval(m), t)
+        pieces.append(t)
+    if not pieces:
+        return z3.StringVal('')
+    return z3.Concat(*pieces) if len(pieces) > 1 else pieces[0]
+
+
+def _case_map(s, fn, uf):
+    eng = engine()
+    out = []
+    for a in atoms(s.e):
+        if z3.is_string_value(a):
+            out.append(core.zstrval(fn(core._zstr_to_py(a))))
+            continue
+        meta = eng.str_meta.get(a.decl().name()) if z3.is_const(a) else None
+        if meta is None:
+            return None
+        out.append(_case_map_term(a, meta[0], meta[1], fn))
+    return mk_str(z3.Concat(*out) if len(out) > 1 else out[0])
+
+
 def str_lower(s):
     if not isinstance(s, SStr):
         return s.lower()
+    exact = _case_map(s, str.lower, _LOWER)
+    if exact is not None:
+        return exact
     r = _LOWER(s.e)
     eng = engine()
     eng.add(_LOWER(r) == r)                                        # idempotent
     eng.add(z3.Implies(z3.Length(s.e) == 0, z3.Length(r) == 0))     # '' -> ''
     eng.add(z3.Implies(z3.Length(s.e) > 0, z3.Length(r) > 0))       # never empties a string
-    eng.used_lower = getattr(eng, 'used_lower', []) + [s.e]
     return SStr(r)
 
 
 def str_upper(s):
     if not isinstance(s, SStr):
         return s.upper()
+    exact = _case_map(s, str.upper, _UPPER)
+    if exact is not None:
+        return exact
     r = _UPPER(s.e)
     eng = engine()
     eng.add(_UPPER(r) == r)
@@ -478,8 +517,13 @@ def sym_lt(a, b, strict=True):
         return mk_bool(res)
     if isinstance(a, Sym) or isinstance(b, Sym):
         if isinstance(a, Sym):
-            return a.__lt__(b) if strict else a.__le__(b)
-        return b.__gt__(a) if strict else b.__ge__(a)
+            r = a.__lt__(b) if strict else a.__le__(b)
+        else:
+            r = b.__gt__(a) if strict else b.__ge__(a)
+        if r is NotImplemented:
+            raise TypeError("'<' not supported between instances of %r and %r"
+                            % (type(a).__name__, type(b).__name__))
+        return r
     return a < b if strict else a <= b
 
 
